@@ -8,8 +8,10 @@ CONSTANTS
   Vals = "small"
   Perturb = {"none", "info", "psk", "pskid", "mode", "kdf", "aead", "skr", "enc", "pks", "shift"}
   Impost = FALSE
+  ShotsOnly = FALSE
+  ShotDl = "tamper"
   Twin = FALSE
-  BadPkR = FALSE
+  BadPkR = "none"
   Shape = "all"
   Emit = FALSE
   Ordered = TRUE
@@ -35,5 +37,5 @@ CONSTANTS
 INVARIANTS
   Binding AuthSound PskSound
 VIEW CoreView
-ACTION_CONSTRAINT InOrder CheckLast EmitTr
+ACTION_CONSTRAINT InOrder CheckLast CheckSetup EmitTr
 CHECK_DEADLOCK FALSE
